@@ -30,7 +30,7 @@ func init() {
 			"(4) Get consults the buffer before storage and goes to storage only on a buffer miss; in NewIterator/NewRangeIterator the buffer iterator is source 0 of the merge and the range scan bounds the buffer iterator with the same bounds as the storage iterator; " +
 			"(5) a finished transaction is inert (C17 rule 1).",
 		NotDecided: "equivalence of all interleavings to a serial order (needs histories); non-transactional writers are excluded by the property itself.",
-		Rules:      []func(*Ctx, *Reporter){ruleTxAcquire, ruleTxRelease, ruleTxLockWriters, ruleTxApplyInside, ruleTxOwnWrites, ruleTxFinishOnce},
+		Rules:      []func(*Ctx, *Reporter){ruleTxAcquire, ruleTxRelease, ruleTxLockWriters, ruleTxApplyInside, ruleTxOwnWrites, ruleTxFinishOnce, ruleTxOpsBuffered},
 	})
 }
 
